@@ -41,6 +41,7 @@ fn main() {
         "C11" => verif_harness::props::c11::run(&cfg),
         "C12" => verif_harness::props::c12::run(&cfg),
         "C19" => verif_harness::props::c19::run(&cfg),
+        "C20" => verif_harness::props::c20::run(&cfg),
         "STRUCT" => verif_harness::props::structs::run_model(&cfg),
         _ => {
             eprintln!("unknown property {prop}");
